@@ -263,9 +263,20 @@ def holdsC14 (c : Case) (o : Obs) : Bool :=
    | some k => (o.events.filter (· == "next")).length ≤ k || cr.all (· != "")
    | none => true)
 
+/-- nothing is scripted to go wrong and the operation really runs -/
+def Case.cleanRun (c : Case) : Bool :=
+  !c.ctxDone && !c.prepareErr && !c.runErr && !c.closeErr && c.fetchErrAt.isNone &&
+  !(c.onTx && c.txEnd != "after")
+
 /-- C15 on Get / GetAll / Run -/
 def holdsC15 (c : Case) (o : Obs) : Bool :=
   let r := o.returns.headD ""
+  -- an empty result of a statement with outputs is ErrNoRows, whatever destinations were given
+  (!(c.cleanRun && c.hasOutputs && c.nrows == 0 &&
+      (c.op == "get" || c.op == "run" ||
+       (c.op == "getall" && (c.dests.startsWith "valid" || c.dests == "invalid" || c.dests == "none" ||
+          c.dests == "sliceint" || c.dests == "sliceptrint"))))
+    || r == "noRows") &&
   match c.op with
   | "get" | "run" =>
     -- ErrNoRows only for an empty result of a statement with outputs, destinations untouched
